@@ -488,7 +488,9 @@ static void run_setter_case(const Case& c, Stats& st, bool presave = false, Snap
 	Mesh m = make_small_mesh(c.V, c.arr, c.trimask, c.uv, c.nrm);
 	NifFile nif;
 	nif.Create(v.get());
-	NiShape* shape = nif.CreateShapeFromData("S", &m.verts, &m.tris, m.uv ? &m.uvs : nullptr, m.nrm ? &m.norms : nullptr);
+	// "no UVs" is handed over as a null pointer or (odd arrangements) as an EMPTY list: packed shapes then carry no UV flag at all
+	static const std::vector<Vector2> noUvs;
+	NiShape* shape = nif.CreateShapeFromData("S", &m.verts, &m.tris, m.uv ? &m.uvs : (c.arr % 2 ? &noUvs : nullptr), m.nrm ? &m.norms : nullptr);
 	st.add("evaluations");
 	if (!shape) { viol(x, "create-returns-null", "CreateShapeFromData returned nullptr"); return; }
 	const int V = c.V;
